@@ -22,6 +22,7 @@ enum Code
     GROUP,      // parser.group(name)
     MOVE,       // move the parser (old one destroyed or kept alive)
     PARSE,      // parse in the middle of the history (then the history goes on)
+    REVERSE,    // allow_reverse() on a declared toggle
     CODE_COUNT
 };
 
@@ -55,7 +56,10 @@ struct Case
 };
 
 // "--a": a name spelled with leading dashes is a different (and unreachable) name, not "a"
-static const char* NAMES[] = { "a", "b", "c", "--a" };
+// "no-a": as a long spelling it belongs to the reversal of a toggle "a", so it is never spelled in the final
+// parse - but it is a name like any other for the declaration rules
+static const char* NAMES[] = { "a", "b", "c", "--a", "no-a" };
+static const int NNAMES = 5;
 static const char* LETTERS[] = { "x", "y", "", "xy", "z", "\xe4" };
 static const char* ENVS[] = { "NITRO_VERIF_D1", "NITRO_VERIF_D2" };
 static const char* METAVARS[] = { "FILE", "", "N" };
@@ -77,19 +81,19 @@ std::string describe(const Case& c)
         {
         case DECL:
             o << (op.group % 8 == 0 ? "parser" : std::string(op.group % 8 >= 4 && op.group % 8 <= 6 ? "held-group(" : "group(") + GROUPS[op.group % 8] + ")") << "."
-              << KINDS[op.kind % 3] << "(" << NAMES[op.name % 4] << ") ";
+              << KINDS[op.kind % 3] << "(" << NAMES[op.name % NNAMES] << ") ";
             break;
         case SHORT:
-            o << NAMES[op.name % 4] << ".short_name(\"" << LETTERS[op.arg % 6] << "\") ";
+            o << NAMES[op.name % NNAMES] << ".short_name(\"" << LETTERS[op.arg % 6] << "\") ";
             break;
         case ENV:
-            o << NAMES[op.name % 4] << ".env(" << ENVS[op.arg % 2] << ") ";
+            o << NAMES[op.name % NNAMES] << ".env(" << ENVS[op.arg % 2] << ") ";
             break;
         case METAVAR:
-            o << NAMES[op.name % 4] << ".metavar(\"" << METAVARS[op.arg % 3] << "\") ";
+            o << NAMES[op.name % NNAMES] << ".metavar(\"" << METAVARS[op.arg % 3] << "\") ";
             break;
         case DEFAULT:
-            o << NAMES[op.name % 4] << ".default_value ";
+            o << NAMES[op.name % NNAMES] << ".default_value ";
             break;
         case GROUP:
             o << "group(" << GROUPS[2 + op.arg % 2] << ") ";
@@ -100,6 +104,9 @@ std::string describe(const Case& c)
             break;
         case PARSE:
             o << "parse ";
+            break;
+        case REVERSE:
+            o << NAMES[op.name % NNAMES] << ".allow_reverse() ";
             break;
         }
     }
@@ -129,9 +136,9 @@ Case generate(vf::Src& src, const std::string& mode)
         }
         else
         {
-            op.code = static_cast<int>(src.weighted({ 38, 27, 5, 4, 4, 6, 17, 8 }));
+            op.code = static_cast<int>(src.weighted({ 38, 27, 5, 4, 4, 6, 17, 8, 5 }));
             op.kind = src.irange(0, 2);
-            op.name = src.coin(92) ? src.irange(0, 2) : 3;
+            op.name = src.coin(88) ? src.irange(0, 2) : src.irange(3, 4);
             op.group = src.coin(75) ? src.irange(0, 3) : src.irange(4, 7);
             op.arg = src.irange(0, 5);
             if (op.code == SHORT) // favour collisions on the letters x and y (and a high-bit byte)
@@ -193,8 +200,8 @@ std::string check(const Case& c, vf::Ctx& ctx)
             const std::string& n = kv.first;
             const Entry& e = kv.second;
             ++serial;
-            if (n[0] == '-')
-                continue; // unreachable from the command line; its letter, if any, still counts
+            if (n[0] == '-' || n.compare(0, 3, "no-") == 0)
+                continue; // not spelled on the command line; its letter, if any, still counts
             if (e.kind == 0)
             {
                 std::string v = "val-" + n;
@@ -262,7 +269,7 @@ std::string check(const Case& c, vf::Ctx& ctx)
 
     for (const Op& op : c.ops)
     {
-        std::string name = NAMES[op.name % 4];
+        std::string name = NAMES[op.name % NNAMES];
         int g = op.group % 8;
         const bool via_held = g >= 4 && g <= 6;
         if (via_held)
@@ -329,9 +336,9 @@ std::string check(const Case& c, vf::Ctx& ctx)
                 model[name] = Entry{ kind, gnorm, addr, "", "", false };
                 // a name with leading dashes can never be spelled on a command line: it must not
                 // be required
-                if (name[0] == '-')
+                if (name[0] == '-' || name.compare(0, 3, "no-") == 0)
                 {
-                    ctx.tag("decl:dashed-name");
+                    ctx.tag(name[0] == '-' ? "decl:dashed-name" : "decl:no-name");
                     if (kind == 0)
                         static_cast<option*>(addr)->optional();
                     else if (kind == 1)
@@ -446,6 +453,16 @@ std::string check(const Case& c, vf::Ctx& ctx)
                 return std::string("group() raised: ") + ex.what() + where(op);
             }
             break;
+        case REVERSE:
+        {
+            auto it = model.find(name);
+            if (it != model.end() && it->second.kind == 2)
+            {
+                static_cast<toggle*>(it->second.addr)->allow_reverse();
+                ctx.tag("toggle:reversible");
+            }
+            break;
+        }
         case PARSE:
         {
             ctx.tag("parse:in-the-middle-of-the-history");
